@@ -31,6 +31,7 @@ func farPair(n int) (a, b []decimal.Word, ok bool) {
 	if farMem == nil || n > farWords {
 		return nil, nil, false
 	}
+	debug.SetPanicOnFault(true) // per goroutine: both vectors start at the first word of their mapping
 	a = unsafe.Slice((*decimal.Word)(unsafe.Pointer(&farMem[0])), farWords)[:n:n]
 	b = unsafe.Slice((*decimal.Word)(unsafe.Pointer(&farMem[1<<32])), farWords)[:n:n]
 	return a, b, true
